@@ -293,3 +293,20 @@ def engine_over_native(fam, t, natives):
             if not f.get("raw") and (f.get("meta") or {}).get("serialize") in ("'as_dict'", "'as_list'") and reach(f["t"], set()):
                 return True
     return False
+
+
+def ancestor_classes(fam, t):
+    """live dataclass ancestors (transitive bases known to the family) of every dataclass node of the type, root first."""
+    out, seen = [], set()
+
+    def walk(name):
+        for b in fam.defs.get(name, {}).get("bases", ()) or ():
+            bname = b.split("[")[0]
+            if bname in fam.defs and fam.defs[bname].get("k") == "dc" and bname not in seen:
+                seen.add(bname)
+                walk(bname)
+                out.append(fam.get(bname))
+    for n in deep_nodes(fam, t):
+        if n[0] in ("dc", "gdc"):
+            walk(n[1])
+    return out
